@@ -81,22 +81,39 @@ func VerifC10_FragmentReassemble() {
 
 func verifC10Run(senderOnly bool) {
 	n := verifC10Sizes[verifChoice("size", len(verifC10Sizes))]
-	var mtu int
-	if senderOnly {
-		mtu = int(verifRange("mtu", 128, 8800)) // every MTU
-	} else {
-		mtu = verifC10Mtus[verifChoice("mtu", len(verifC10Mtus))]
-	}
 	maxFrags := verifParam("maxfrags", 3)
 	opt := MakeNDNLPLinkServiceOptions()
 	opt.IsFragmentationEnabled = verifBool("frag")
 	opt.IsIncomingFaceIndicationEnabled = verifBool("ifi")
+	hasTok := verifBool("tok")
+	hasMark := verifBool("mark")
+	var mtu int
+	if senderOnly {
+		mtu = int(verifRange("mtu", 128, 8800)) // every MTU
+	} else {
+		// the MTU list, plus the MTUs that make the packet an exact multiple (2x, 3x) of the per-frame payload
+		k := verifChoice("mtu", len(verifC10Mtus)+2)
+		if k < len(verifC10Mtus) {
+			mtu = verifC10Mtus[k]
+		} else {
+			parts := k - len(verifC10Mtus) + 2
+			verifAssume(n%parts == 0)
+			l0, _ := verifC10Link(8800, opt)
+			mtu = n/parts + l0.headerOverhead
+			if hasTok {
+				mtu += pitTokenOverhead
+			}
+			if hasMark {
+				mtu += congestionMarkOverhead
+			}
+			verifAssume(mtu >= 128)
+		}
+	}
 	wire := verifC10Packet(n)
 	l, tr := verifC10Link(mtu, opt)
 	name, _ := enc.NameFromStr("/a")
 	pkt := &defn.Pkt{Name: name, Raw: wire, L3: &spec.Packet{Data: &spec.Data{NameV: name}}}
 	out := dispatch.OutPkt{Pkt: pkt}
-	hasTok := verifBool("tok")
 	if hasTok {
 		out.PitToken = verifBytesN("token", 6)
 		// a token in this forwarder's format names forwarding thread 0 (the only thread of the receiver rig)
@@ -104,7 +121,7 @@ func verifC10Run(senderOnly bool) {
 		pkt.PitToken = out.PitToken
 	}
 	var mark *uint64
-	if verifBool("mark") {
+	if hasMark {
 		m := verifU64("markval")
 		mark = &m
 		pkt.CongestionMark = mark
